@@ -453,7 +453,7 @@ theorem lines_renderNode (c : RCtx) (L : List Nat) :
     refine postM_wrapFailAt _ L _ hline (postM_bind (postM_getVar _) (fun lv _ => ?_))
     split
     · exact postM_fail _ (errorfAt_lineIn L _ _ hline)
-    · exact postM_bind (postM_setVar _ _) (fun _ _ => postM_bind (postM_write L _) (fun _ _ => postM_pure _ True.intro))
+    · exact postM_bind (postM_setVar _ _) (fun _ _ => postM_bind (postM_writeVerbatim L _) (fun _ _ => postM_pure _ True.intro))
   | .brk line, _, hL => by
     unfold renderNode
     have hline : (⟨line, true⟩ : Loc).line = 0 ∨ (⟨line, true⟩ : Loc).line ∈ L := Or.inr (hL _ (by simp [Node.lines]))
